@@ -124,7 +124,7 @@ Proof.
   cbn [rbind]. f_equal.
   assert (Hc : cast (promote t) (2 ^ e) = 2 ^ e).
   { types t HT; range Hp; widths; unfold cast; cbn [sgn bits];
-      first [apply ws_small | apply wu_small]; consts; try lia. Show. }
+      first [apply ws_small | apply wu_small]; widths; consts; lia. }
   rewrite Hc. now apply cast_id.
 Qed.
 
@@ -164,9 +164,7 @@ Proof.
   { apply Z.log2_lt_pow2; try lia. apply in_ty_range in Hin.
     assert (imax t < 2 ^ bits t); [|lia].
     types t HT; consts; lia. }
-  rewrite (ilog2_loop_ok t HT _ x 0); auto; try lia.
-  - (wcases HT; lia).
-  - (wcases HT; lia).
+  rewrite (ilog2_loop_ok t HT _ x 0); auto; try lia; (wcases HT; lia).
 Qed.
 
 (* values below 1 leave the loop at once: the result is 0 (outside the documented domain) *)
